@@ -203,6 +203,60 @@ def r5_with_meta_pure_and_exact(ctx):
             if kw.get("meta", pos_meta) != p:
                 ok, why = False, f"`{P.un(v)}` does not install exactly the given metadata `{p}`"
         ctx.ob("C04.R5", f"{rel}::{cls.name}.with_meta::{' | '.join(P.un(r.value) for r in rets)}", rel, m.lineno, ok, why)
+    # ... and the core function hands *every* metadata value on, nil included: a test of the new
+    # metadata's truthiness alone returns the value with its old metadata for (with-meta x nil)
+    from .. import lispread as L
+    CORE = "src/basilisp/core.lpy"
+    defs = L.top_defs(ctx.lisp(CORE))
+    wm = defs.get("with-meta")
+    if wm is None:
+        raise AnalysisError("anchor vanished: core.lpy::with-meta")
+    fns = [f for f in L.walk(wm) if L.head(f) in ("fn*", "fn") and any(isinstance(x, L.Vec) for x in f.items)]
+    if not fns:
+        raise AnalysisError("core.lpy::with-meta is not a fn form")
+    params = next(x for x in fns[0].items if isinstance(x, L.Vec))
+    on, mn = params.items[0].val, params.items[1].val
+    calls = [f for f in L.walk(fns[0]) if L.head(f) == ".with-meta" and len(f.items) == 3 and f.items[1].text() == on and f.items[2].text() == mn]
+    if not calls:
+        raise AnalysisError("core.lpy::with-meta no longer calls (.with-meta o meta)")
+    ok, why = True, ""
+    for c in calls:
+        for a in L.ancestors(c):
+            if a is fns[0]:
+                break
+            if L.head(a) in ("if", "when", "if-not", "when-not") and len(a.items) >= 3 and not any(isinstance(x, L.Sym) and x.val == on for x in L.walk(a.items[1])):
+                if any(isinstance(x, L.Sym) and x.val == mn for x in L.walk(a.items[1])):
+                    ok, why = False, f"`{a.items[1].text()}` alone decides whether the metadata is installed: (with-meta x nil) returns x with its old metadata instead of a value whose metadata is nil"
+    ctx.ob("C04.R5", f"{CORE}::with-meta::nil metadata is installed like any other", CORE, wm.line, ok, why,
+           witness="(meta (with-meta (with-meta [1] {:a 1}) nil)) => {:a 1}")
+
+
+@rule("C04.R9", floor=3)
+def r9_pop_stays_in_its_collection_type(ctx):
+    """pop of a vector, list or queue is a value of the same collection type (the model's sequence
+    minus one element): it is built by the class's own constructor or slicing, never handed out
+    from a seq-level accessor (`rest` of a one element list is the generic empty seq, which is not
+    a list: peek / pop / list? on it fail)."""
+    n = 0
+    for rel, cls in _classes(ctx):
+        m = cls and P.methods(cls).get("pop")
+        if m is None or cls.name.startswith("Transient"):
+            continue
+        n += 1
+        rets = [r for r in ast.walk(m) if isinstance(r, ast.Return) and r.value is not None]
+        bad = []
+        for r in rets:
+            v = r.value
+            while isinstance(v, ast.Call) and P.un(v.func) in ("cast", "typing.cast") and len(v.args) == 2:
+                v = v.args[1]
+            same_type = (isinstance(v, ast.Call) and P.un(v.func) in (cls.name, "type(self)", "self.__class__")) or (isinstance(v, ast.Subscript) and P.un(v.value) == "self") or P.un(v) in ("self", "EMPTY")
+            if not same_type:
+                bad.append(r)
+        ctx.ob("C04.R9", f"{rel}::{cls.name}.pop::returns a {cls.name}", rel, m.lineno, bool(rets) and not bad,
+               "" if rets and not bad else f"`{P.un(bad[0].value) if bad else '?'}` is not built by {cls.name} itself: for a one element list `rest` is the generic empty seq, so (list? (pop '(1))) is false and (peek (pop '(1))) raises AttributeError",
+               witness="(peek (pop '(1))) => AttributeError")
+    if n < 3:
+        raise AnalysisError(f"only {n} pop implementations found")
 
 
 def _controlling_tests(node, func):
@@ -314,6 +368,12 @@ def r7_runtime_ops_do_not_return_their_input_blindly(ctx):
 
 
 SELFTEST = [
+    {"name": "list pop hands out rest (the repaired defect)", "file": "src/basilisp/lang/list.py", "expect": "C04.R9",
+     "old": "        return PersistentList(self._inner.rest)\n", "new": "        return cast(PersistentList, self.rest)\n", "nth": 1},
+    {"name": "with-meta ignores nil metadata (the repaired defect)", "file": "src/basilisp/core.lpy", "expect": "C04.R5",
+     "old": "       (if (if meta meta (if (python/hasattr o \"meta\") (.-meta o) nil))\n", "new": "       (if meta\n"},
+    {"name": "twin: with-meta always calls .with-meta", "file": "src/basilisp/core.lpy", "expect": None,
+     "old": "       (if (if meta meta (if (python/hasattr o \"meta\") (.-meta o) nil))\n         (.with-meta o meta)\n         o)))", "new": "       (.with-meta o meta)))"},
     {"name": "seeded C04/a: update returns its input when the value is identical", "file": RT, "expect": "C04.R7",
      "old": "    new_v = f(old_v, *args)\n    return m.assoc(k, new_v)\n", "new": "    new_v = f(old_v, *args)\n    if new_v is old_v:\n        return m\n    return m.assoc(k, new_v)\n"},
     {"name": "twin: update shortcut behind a presence test", "file": RT, "expect": None,
@@ -327,8 +387,8 @@ SELFTEST = [
     {"name": "persistent! returns the evolver-backed vector", "file": "src/basilisp/lang/vector.py", "expect": "C04.R3",
      "old": "        return PersistentVector(self._inner.persistent())\n", "new": "        return PersistentVector(self._inner)\n"},
     {"name": "queue equality looks at metadata", "file": "src/basilisp/lang/queue.py", "expect": "C04.R4",
-     "old": "        if self is other:\n            return True\n        if hasattr(other, \"__len__\") and len(self) != len(other):\n            return False\n        return seq_equals(self, other)\n",
-     "new": "        if self is other:\n            return True\n        if hasattr(other, \"__len__\") and len(self) != len(other):\n            return False\n        if getattr(other, \"_meta\", None) != self._meta:\n            return False\n        return seq_equals(self, other)\n"},
+     "old": "        if isinstance(other, Sized) and len(self) != len(other):\n            return False\n        return seq_equals(self, other)\n",
+     "new": "        if isinstance(other, Sized) and len(self) != len(other):\n            return False\n        if getattr(other, \"_meta\", None) != self._meta:\n            return False\n        return seq_equals(self, other)\n"},
     {"name": "with_meta merges instead of replacing", "file": "src/basilisp/lang/map.py", "expect": "C04.R5",
      "old": "        return PersistentMap(self._inner, meta=meta)\n", "new": "        return PersistentMap(self._inner, meta=(self._meta or EMPTY).update(meta or EMPTY))\n"},
     {"name": "with_meta mutates in place", "file": "src/basilisp/lang/list.py", "expect": "C04.R5",
